@@ -85,7 +85,7 @@ func (x *XDateTime) In(tz *time.Location) *XDateTime {
 func (x *XDateTime) ReplaceTime(tm *XTime) *XDateTime {
 	d := x.Native()
 	t := tm.Native()
-	return NewXDateTime(time.Date(d.Year(), d.Month(), d.Day(), t.Hour, t.Minute, t.Second, t.Nanos, d.Location()))
+	return NewXDateTime(envs.CombineDateAndTime(dates.ExtractDate(d), t, d.Location()))
 }
 
 // Equals determines equality for this type
@@ -146,7 +146,7 @@ func toXDateTime(env envs.Environment, x XValue, fillTime bool) (*XDateTime, *XE
 		case *XError:
 			return XDateTimeZero, typed
 		case *XDate:
-			return NewXDateTime(typed.Native().Combine(dates.ZeroTimeOfDay, env.Timezone())), nil
+			return NewXDateTime(envs.CombineDateAndTime(typed.Native(), dates.ZeroTimeOfDay, env.Timezone())), nil
 		case *XDateTime:
 			return typed, nil
 		case *XText:
